@@ -100,7 +100,13 @@ pub fn search(seed: u64, budget: &Budget, thorough: bool) -> (u64, Option<(Strin
             let min_len = *rng.pick(&[0usize, 1, 3, 4, 5, 6, 7, 9, 12, 30]);
             if let Err(e) = check_orf(&seq, min_len) { return (tried, Some((format!("min={} seq={}", min_len, hex(&seq)), e))); }
         } else {
-            let sym = rng.bytes(1 + rng.below(8) as usize, b"ACGTNacgtn$XYZ");
+            // symbol sets: mostly nucleotide-like, some over the whole byte range with the extreme bytes 0x00 / 0xFE / 0xFF, sometimes all 256
+            let sym: Vec<u8> = match rng.below(8) {
+                0 => (0..=255u8).collect(),
+                1 | 2 => { let mut v = rng.bytes(1 + rng.below(6) as usize, b"ACGTN$"); v.push(*rng.pick(&[0u8, 1, 127, 128, 254, 255])); if rng.below(2) == 0 { v.push(255); } v }
+                3 => (0..1 + rng.below(8)).map(|_| rng.below(256) as u8).collect(),
+                _ => rng.bytes(1 + rng.below(8) as usize, b"ACGTNacgtn$XYZ"),
+            };
             let text = if rng.below(3) == 0 { (0..rng.below(30)).map(|_| rng.below(256) as u8).collect::<Vec<u8>>() } else { rng.bytes(rng.below(30) as usize, b"ACGTNacgtn$XYZRYKM") };
             if let Err(e) = check_alpha(&sym, &text) { return (tried, Some((format!("sym={} text={}", hex(&sym), hex(&text)), e))); }
         }
